@@ -234,12 +234,12 @@ def isResponse (self other : Msg) : Bool :=
 
 /-! ## what the parser makes of a datagram -/
 
-/-- What the message reader finds *after* the 12-octet header (the reader itself is C03/C04's subject). -/
+/-- What the message reader finds *after* the question section (the reader of the resource records is
+C03/C04's subject); the header and the question section are read by this model from the octets themselves. -/
 structure Body where
-  question : List QEntry
   ednsflags : Nat
-  /-- `none`: every section was parsed; `some fe`: the body raised, and `fe` says whether the exception is in
-      the `FormError` family; `question` / `ednsflags` are then the message as built so far -/
+  /-- `none`: every section was parsed; `some fe`: a record after the question section raised, and `fe` says
+      whether the exception is in the `FormError` family; `ednsflags` is then as found so far -/
   broken : Option Bool
   /-- octets remain after the last section -/
   trailing : Bool
@@ -259,6 +259,53 @@ def beVal (b : Bytes) : Nat := b.foldl (fun a x => a * 256 + x) 0
 def header (b : Bytes) : Option (Nat × Nat) :=
   if b.length < 12 then none else some (beVal (b.take 2), beVal ((b.drop 2).take 2))
 
+/-- `dns.name.from_wire_parser` at offset `cur` of the message `w` (compression pointers must point strictly
+backwards, `bp` = `biggest_pointer`): the labels, and the furthest offset read (where the parser continues).
+`none` = `FormError` family (past the end, `BadPointer`, `BadLabelType`).  Recursion on explicit fuel. -/
+def readName (w : Bytes) : Nat → Nat → Nat → Nat → List Bytes → Option (List Bytes × Nat)
+  | 0, _, _, _, _ => none
+  | fuel + 1, cur, bp, far, acc =>
+    match w[cur]? with
+    | none => none
+    | some c =>
+      if c = 0 then some (acc ++ [[]], max far (cur + 1))
+      else if c < 64 then
+        if cur + 1 + c > w.length then none
+        else readName w fuel (cur + 1 + c) bp (max far (cur + 1 + c)) (acc ++ [(w.drop (cur + 1)).take c])
+      else if c ≥ 192 then
+        match w[cur + 1]? with
+        | none => none
+        | some d =>
+          if (c % 64) * 256 + d ≥ bp then none
+          else readName w fuel ((c % 64) * 256 + d) ((c % 64) * 256 + d) (max far (cur + 2)) acc
+      else none
+
+/-- `Parser.get_name()`: the name at `cur` and the offset after it; `Name(labels)` rejects more than 255 octets -/
+def getName (w : Bytes) (cur : Nat) : Option (List Bytes × Nat) :=
+  match readName w ((w.length + 1) * (w.length + 1)) cur cur cur [] with
+  | none => none
+  | some (labels, far) => if (labels.map (·.length + 1)).sum > 255 then none else some (labels, far)
+
+/-- `_WireReader._get_question`: `n` entries from offset `off` on.  Returns the entries added to the question
+section so far and, unless a read raised (`FormError` family), the offset after the section.  `update` = the
+message is an UPDATE, whose zone section must be one SOA of a data class (`UpdateMessage._parse_rr_header`). -/
+def readQuestions (update : Bool) (w : Bytes) : Nat → Nat → List QEntry → List QEntry × Option Nat
+  | 0, off, acc => (acc, some off)
+  | n + 1, off, acc =>
+    match getName w off with
+    | none => (acc, none)
+    | some (name, p) =>
+      if p + 4 > w.length then (acc, none)
+      else
+        let rdtype := beVal ((w.drop p).take 2)
+        let rdclass := beVal ((w.drop (p + 2)).take 2)
+        if update && (rdclass == 254 || rdclass == 255 || rdtype != 6 || !acc.isEmpty) then (acc, none)
+        else readQuestions update w n (p + 4) (acc ++ [⟨name, rdclass, rdtype⟩])
+
+/-- the question section of a datagram as the reader builds it: entries, and whether it was read to its end -/
+def questionSection (b : Bytes) (flags : Nat) : List QEntry × Option Nat :=
+  readQuestions (opcodeOf flags == ConstsC18.opUpdate) b (beVal ((b.drop 4).take 2)) 12 []
+
 inductive PErr where
   | formError | other | truncated (m : Msg)
   deriving DecidableEq, Repr
@@ -270,8 +317,10 @@ def fromWire (w : Wire) (ignoreTrailing raiseOnTruncation : Bool) (contOnErr : B
   match header w.octets with
   | none => .error .formError
   | some (id, flags) =>
-    let m : Msg := ⟨id, flags, w.body.ednsflags, w.body.question⟩
-    match w.body.broken with
+    let qs := questionSection w.octets flags
+    -- a question section that cannot be read is a `FormError` before any later record (and any OPT) is seen
+    let m : Msg := ⟨id, flags, if qs.2.isSome then w.body.ednsflags else 0, qs.1⟩
+    match (if qs.2.isSome then w.body.broken else some true) with
     | some fe =>
       if contOnErr then (if tc flags && raiseOnTruncation then .error (.truncated m) else .ok m)
       else if fe then (if tc flags && raiseOnTruncation then .error (.truncated m) else .error .formError)
